@@ -236,7 +236,7 @@ def run_shard(spec):
             if not done:
                 st_.exhaustive = False
         st_.extra["dfs_schedules"] = total
-        st_.extra["preemption_bound"] = bound
+        st_.notes.append(f"DFS preemption bound {bound}")
         return st_
     count = [0]
 
